@@ -311,3 +311,11 @@ func BuildAll(cs []*FileCase, scratch string, workers int) error {
 	}
 	return nil
 }
+
+func unmarshalPair(raw map[string]json.RawMessage, p *PairCase) error {
+	b, err := json.Marshal(raw)
+	if err != nil {
+		return err
+	}
+	return json.Unmarshal(b, p)
+}
